@@ -73,6 +73,9 @@ class Pipeline(_PayloadProcessor):
         super().__init__(logger)
         self.pipeline_configuration = pipeline_configuration
         self.transport = transport or InMemorySemantivaTransport()
+        # The private default transport has no other consumer: it is renewed for
+        # every run so that unconsumed node outputs do not pile up across runs.
+        self._default_transport = self.transport if transport is None else None
         self.orchestrator = orchestrator or LocalSemantivaOrchestrator()
         self.trace = trace
         self._run_metadata: dict[str, Any] | None = None
@@ -103,6 +106,9 @@ class Pipeline(_PayloadProcessor):
         node_count = len(self.canonical_spec.get("nodes", []))
         self.logger.info("Starting pipeline with %s nodes", node_count)
         self.stop_watch.start()  # existing pipeline timer start
+
+        if self.transport is self._default_transport:
+            self.transport = self._default_transport = InMemorySemantivaTransport()
 
         run_meta = self._run_metadata
         result_payload = self.orchestrator.execute(
